@@ -80,6 +80,15 @@ def gen_series(rng, it, tier):
         stamps[-1] = stamps[0] + 3 * 3600 + int(rng.integers(10, 4000))
         stamps = np.maximum.accumulate(stamps)
     vals = rng.integers(0, 40, size=n) / 4.0
+    if it % 29 in (11, 12) and n >= 4:
+        # a perfectly regular record: one value per period, stamped on the period
+        # boundaries (a logger set to the output step), with a negative reading or a gap
+        # somewhere
+        Pr = [3600, 1800][it % 2]
+        t_reg = (int(stamps[0]) // 3600) * 3600
+        stamps = (t_reg + Pr * np.arange(n)).astype(np.int64)
+        vals[int(rng.integers(1, n - 1))] = [-1.5, np.nan, -0.25][(it // 29) % 3]
+        return stamps, vals
     k = it % 6
     if k == 1:
         vals[rng.random(n) < 0.1] = np.nan
